@@ -9,7 +9,7 @@ import vbuild, vcheck
 H = os.path.join(vbuild.VERIF, "harness")
 DRIVERS = [os.path.join(H, f) for f in ("drv_arrayad.cpp", "drv_arrayad_s1.cpp", "drv_arrayad_s2.cpp",
                                         "drv_arrayad_s3.cpp", "drv_arrayad_s4.cpp", "drv_arrayad_s5.cpp",
-                                        "drv_arrayad_s6.cpp", "drv_arrayad_s7.cpp", "drv_arrayad_s8.cpp")]
+                                        "drv_arrayad_s6.cpp", "drv_arrayad_s7.cpp", "drv_arrayad_s8.cpp", "drv_arrayad_s9.cpp")]
 EXACT_BOUND = 1 << 50
 
 
@@ -149,7 +149,14 @@ class StmtLine:
 #   ("arr", gi) ("c", Fraction) ("add"|"sub"|"mul"|"div", l, r) ("neg", x) ("noalias", x)
 #   ("idx", gi, [gi of index vectors]) ("spread", d, n, gi) ("outer", gi, gj) ("el", gi, index tuple)
 #   ("sin"|"exp"|"sqrt", x)   (Float regime, oracle only)
+#   ("max"|"min", l, r) ("abs", x)   (exact regime; the tie rule of Max/Min::is_left: max -> right operand, min -> left)
+#   (name, x) for name in FLOAT_FUNCS, ("pow"|"atan2", l, r)   (Float regime, oracle only)
 OPS = {"add": "add", "sub": "sub", "mul": "mul", "div": "div"}
+MAXMIN = {"max": "max", "fmax": "max", "min": "min", "fmin": "min"}
+# the functions of ADEPT_DEF_UNARY_FUNC (UnaryOperation.h) except abs/fabs (exact regime, modelled) and fastexp
+FLOAT_FUNCS = ["log", "log10", "log2", "log1p", "cos", "tan", "asin", "acos", "atan", "sinh", "cosh", "tanh", "sin", "ceil",
+               "floor", "expm1", "exp2", "cbrt", "erf", "erfc", "asinh", "acosh", "atanh", "exp", "sqrt", "round", "trunc",
+               "rint", "nearbyint"]
 
 
 def describe(w):
@@ -271,6 +278,42 @@ def describe(w):
         return dict(kind="assign", t=0, e=("sqrt", A(1)), float=True)
     if k == "fexpm":
         return dict(kind="assign", t=0, e=("mul", ("exp", A(1)), A(2)), float=True)
+    if k in ("mm", "mmsl", "mmsr", "mmal", "mmar", "mmn1", "mmn2", "mmred"):
+        fn = MAXMIN.get(w[1])
+        if fn is None:
+            return None
+        if k == "mm":
+            return dict(kind="assign", t=0, e=(fn, A(1), A(2)))
+        if k == "mmsl":
+            return dict(kind="assign", t=0, e=(fn, C(w[3]), A(1)))
+        if k == "mmsr":
+            return dict(kind="assign", t=0, e=(fn, A(1), C(w[4])))
+        if k == "mmal":
+            return dict(kind="assign", t=0, e=(fn, A(1), A(2)))
+        if k == "mmar":
+            return dict(kind="assign", t=0, e=(fn, A(2), A(1)))
+        if k == "mmn1":
+            return dict(kind="assign", t=0, e=("mul", A(3), (fn, ("sub", A(1), A(2)), A(3))))
+        if k == "mmn2":
+            return dict(kind="assign", t=0, e=("min" if fn == "max" else "max", (fn, A(1), A(2)), A(3)))
+        return dict(kind="reduce", f="sum", t=0, e=(fn, A(1), A(2)), shape=1)
+    if k == "ab" and w[1] in ("abs", "fabs"):
+        return dict(kind="assign", t=0, e=("abs", A(1)))
+    if k == "abn" and w[1] in ("abs", "fabs"):
+        return dict(kind="assign", t=0, e=("mul", A(2), ("abs", ("sub", A(1), A(2)))))
+    if k == "ffn" and w[1] in FLOAT_FUNCS:
+        return dict(kind="assign", t=0, e=(w[1], A(1)), float=True)
+    if k == "ffnn" and w[1] in FLOAT_FUNCS:
+        return dict(kind="assign", t=0, e=("mul", (w[1], ("mul", A(1), A(2))), A(2)), float=True)
+    if k == "ffb" and w[1] in ("pow", "atan2"):
+        return dict(kind="assign", t=0, e=(w[1], A(1), A(2)), float=True)
+    if k == "ffbl" and w[1] in ("pow", "atan2"):
+        return dict(kind="assign", t=0, e=(w[1], C(w[3]), A(1)), float=True)
+    if k == "ffbr" and w[1] == "pow":
+        return dict(kind="assign", t=0, e=("pow", A(1), C(w[4])), float=True)
+    if k == "dvx":
+        # N = diag_vector(A*B + A, k); the driver prints A, A, B (the new vector exists only afterwards)
+        return dict(kind="diag", e=("add", ("mul", A(1), A(2)), A(1)), shape=1, k=int(w[4]), newh=int(w[1]))
     if k == "fxcopy":
         return dict(kind="assign", t=0, e=A(1), fixed=True)
     if k == "fxbin":
@@ -294,10 +337,13 @@ STMT_KINDS = ["copy", "neg", "bin", "binsl", "binsr", "binal", "binar", "n1", "n
               "bcp", "bca", "bce", "cmp", "cmps", "cmpa", "whr", "whrs", "wheo", "wheos", "ixt", "ixe", "ixts", "ixtc", "ixs",
               "ixss", "ixtt", "ixcmp", "ixt2", "ixe2", "ixs2", "ixts2", "red", "rede", "dot", "rdim", "rdime", "outer", "spr",
               "spre", "elr", "elrc", "elw", "elc", "elcp", "elx", "fsin", "fsqrt", "fexpm", "fxcopy", "fxbin", "fxsrc", "fxff",
-              "fxbcp", "fxbca", "fxcmp", "fxred"]
+              "fxbcp", "fxbca", "fxcmp", "fxred",
+              "mm", "mmsl", "mmsr", "mmal", "mmar", "mmn1", "mmn2", "mmred", "ab", "abn",
+              "ffn", "ffnn", "ffb", "ffbl", "ffbr", "dvx"]
 
 
-# statement kinds of drv_arrayad_s5.cpp: recording sites without a C03 model (used by C09)
+# statement kinds of drv_arrayad_s5.cpp that C09 emits itself (dvx has a C03 model and oracle since the diag_vector
+# extension and is a statement kind as well; elg, fxg: recording sites without a C03 model)
 EXTRA_KINDS = ["dvx", "elg", "fxg"]
 
 
@@ -355,9 +401,9 @@ class ModelLine:
             return ["a%d" % self.view(e[1], e[2])]
         if t == "c":
             return ["c" + fmt(e[1])]
-        if t in ("add", "sub", "mul", "div"):
+        if t in ("add", "sub", "mul", "div", "max", "min"):
             return [t] + self.toks(e[1]) + self.toks(e[2])
-        if t in ("neg", "noalias"):
+        if t in ("neg", "noalias", "abs"):
             return [t] + self.toks(e[1])
         if t == "idx":
             ids = [self.ivec(i) for i in e[2]]
@@ -458,6 +504,13 @@ def to_model(w, P, W):
             res = M.view_raw(rsid, a.off, a.dims, a.strides)
             dims = P.geoms[d["shape"]].dims
             return M.line("rdim %s %d %d %d %s %d %d" % (d["f"], tot, e, len(dims), " ".join(str(x) for x in dims), d["d"], res)), ("view", a)
+        if k == "diag":
+            e = M.expr(d["e"])
+            a = P.after
+            rsid = M.new_sto(P.memafter.gbase, P.memafter.n)
+            res = M.view_raw(rsid, a.off, a.dims, a.strides)
+            dims = P.geoms[d["shape"]].dims
+            return M.line("diag %d %d %d %d %d" % (e, dims[0], dims[1], d["k"], res)), ("view", a)
         if k == "scalar":
             t = M.view(d["t"][1], d["t"][2]); e = M.expr(d["e"])
             return M.line("scalar %d %d" % (t, e)), ("all", P.geoms[0].root)
@@ -531,15 +584,62 @@ class Dual:
         return Dual(q, Dual.lin(1 / o.v if isinstance(o.v, Fraction) else 1.0 / o.v, self.d, -q / o.v, o.d))
 
     def fn(self, name):
+        """textbook value and derivative of the element-wise functions (floats)"""
         x = float(self.v)
-        if name == "sin":
-            return Dual(math.sin(x), Dual.lin(math.cos(x), self.d, 0, {}))
-        if name == "exp":
-            return Dual(math.exp(x), Dual.lin(math.exp(x), self.d, 0, {}))
+        m = math
+        if name in ("ceil", "floor", "round", "trunc", "rint", "nearbyint"):
+            v = {"ceil": m.ceil, "floor": m.floor, "trunc": m.trunc, "rint": round, "nearbyint": round,
+                 "round": lambda y: m.copysign(m.floor(abs(y) + 0.5), y)}[name](x)
+            return Dual(float(v), {})
         if name == "sqrt":
-            r = math.sqrt(x)
+            r = m.sqrt(x)
+            if r == 0:
+                raise ZeroDivisionError
             return Dual(r, Dual.lin(0.5 / r, self.d, 0, {}))
-        raise ValueError(name)
+        if name == "cbrt":
+            r = m.cbrt(x)
+            if r == 0:
+                raise ZeroDivisionError
+            return Dual(r, Dual.lin(1.0 / (3.0 * r * r), self.d, 0, {}))
+        table = {
+            "sin": (m.sin, m.cos), "cos": (m.cos, lambda y: -m.sin(y)), "tan": (m.tan, lambda y: 1.0 / m.cos(y) ** 2),
+            "exp": (m.exp, m.exp), "expm1": (m.expm1, m.exp), "exp2": (lambda y: 2.0 ** y, lambda y: m.log(2.0) * 2.0 ** y),
+            "log": (m.log, lambda y: 1.0 / y), "log10": (m.log10, lambda y: 1.0 / (y * m.log(10.0))),
+            "log2": (m.log2, lambda y: 1.0 / (y * m.log(2.0))), "log1p": (m.log1p, lambda y: 1.0 / (1.0 + y)),
+            "asin": (m.asin, lambda y: 1.0 / m.sqrt(1.0 - y * y)), "acos": (m.acos, lambda y: -1.0 / m.sqrt(1.0 - y * y)),
+            "atan": (m.atan, lambda y: 1.0 / (1.0 + y * y)),
+            "sinh": (m.sinh, m.cosh), "cosh": (m.cosh, m.sinh), "tanh": (m.tanh, lambda y: 1.0 - m.tanh(y) ** 2),
+            "asinh": (m.asinh, lambda y: 1.0 / m.sqrt(y * y + 1.0)), "acosh": (m.acosh, lambda y: 1.0 / m.sqrt(y * y - 1.0)),
+            "atanh": (m.atanh, lambda y: 1.0 / (1.0 - y * y)),
+            "erf": (m.erf, lambda y: 2.0 / m.sqrt(m.pi) * m.exp(-y * y)),
+            "erfc": (m.erfc, lambda y: -2.0 / m.sqrt(m.pi) * m.exp(-y * y)),
+        }
+        if name not in table:
+            raise ValueError(name)
+        f, df = table[name]
+        try:
+            return Dual(f(x), Dual.lin(df(x), self.d, 0, {}))
+        except ValueError:
+            raise ZeroDivisionError          # outside the domain of the function: not a point of the property
+
+    def pow(self, o):
+        x, y = float(self.v), float(o.v)
+        try:
+            v = x ** y
+            dl = y * x ** (y - 1.0) if self.d else 0.0
+            dr = v * math.log(x) if o.d else 0.0
+        except (ValueError, OverflowError):
+            raise ZeroDivisionError
+        if isinstance(v, complex):
+            raise ZeroDivisionError
+        return Dual(v, Dual.lin(dl, self.d, dr, o.d))
+
+    def atan2(self, o):
+        y, x = float(self.v), float(o.v)
+        q = x * x + y * y
+        if q == 0:
+            raise ZeroDivisionError
+        return Dual(math.atan2(y, x), Dual.lin(x / q, self.d, -y / q, o.d))
 
 
 class OracleFail(Exception):
@@ -602,7 +702,20 @@ class Oracle:
         if t == "div": return self.ev(e[1], P, ix) / self.ev(e[2], P, ix)
         if t == "neg": return -self.ev(e[1], P, ix)
         if t == "noalias": return self.ev(e[1], P, ix)
-        if t in ("sin", "exp", "sqrt"): return self.ev(e[1], P, ix).fn(t)
+        if t in ("max", "min"):
+            # the scalar statement max(l, r) / min(l, r) on adoubles: the derivative is that of the selected operand; at a
+            # tie max selects the right operand and min the left one (Max::is_left `l > r`, Min::is_left `l <= r`)
+            l = self.ev(e[1], P, ix); r = self.ev(e[2], P, ix)
+            if t == "max":
+                return l if l.v > r.v else r
+            return l if l.v <= r.v else r
+        if t == "abs":
+            x = self.ev(e[1], P, ix)
+            sg = 1 if x.v > 0 else -1 if x.v < 0 else 0          # (val>0.0)-(val<0.0)
+            return Dual(abs(x.v), Dual.lin(sg, x.d, 0, {}))
+        if t == "pow": return self.ev(e[1], P, ix).pow(self.ev(e[2], P, ix))
+        if t == "atan2": return self.ev(e[1], P, ix).atan2(self.ev(e[2], P, ix))
+        if t in FLOAT_FUNCS: return self.ev(e[1], P, ix).fn(t)
         if t == "idx":
             g = P.geoms[e[1]]
             return self.rd(g, tuple(P.geoms[v].iv[i] for v, i in zip(e[2], ix)))
@@ -709,6 +822,20 @@ class Oracle:
             for jx in a.indices():
                 xs = [self.ev(d["e"], P, tuple(jx[:dim]) + (i,) + tuple(jx[dim:])) for i in range(sg.dims[dim])]
                 writes.append((newroot, a.addr(jx), self.reduce(d["f"], xs)))
+        elif k == "diag":
+            # N = diag_vector(expr, k): element j is expr(j, j+k) for k >= 0 and expr(j-k, j) for k < 0
+            sg = P.geoms[d["shape"]]; kk = d["k"]
+            a = P.after
+            n = min(sg.dims[0], sg.dims[1] - kk) if kk >= 0 else min(sg.dims[0] + kk, sg.dims[1])
+            if a.dims != [max(n, 0)]:
+                return "diag_vector(expression, %d) of a %dx%d expression has %s elements, expected %d" % (
+                    kk, sg.dims[0], sg.dims[1], a.dims, max(n, 0))
+            newroot = a.root
+            self.mem[newroot] = [Dual(c) for c in P.memafter.cells]
+            self.gb[newroot] = P.memafter.gbase
+            for j in range(n):
+                ix = (j, j + kk) if kk >= 0 else (j - kk, j)
+                writes.append((newroot, a.addr((j,)), self.ev(d["e"], P, ix)))
         elif k == "scalar":
             t = d["t"]
             g = P.geoms[t[1]]
@@ -738,7 +865,7 @@ class Oracle:
         # judge: values of the whole allocation the target lives in, derivatives of every cell written
         root = a.root
         img = P.memafter
-        if k in ("rdim",) or sw:
+        if k in ("rdim", "diag") or sw:
             cells = [ad for r, ad, _ in writes]
         else:
             cells = range(img.n)
